@@ -543,6 +543,26 @@ def _exempt_for(prog, r, kind):
     return None
 
 
+WAIT_RESULT_FIELDS = {('pollfd', 'revents'), ('epoll_event', 'events'), ('epoll_event', 'data')}
+
+
+def _reads_wait_results(e):
+    """does the event read a result field of the array a kernel wait fills (pollfd.revents, epoll_event.events/.data)?
+    The left-hand side of a store is a write (clearing revents is fine); everything else an event carries is read."""
+    if e.get('ev') not in ('load', 'store', 'call', 'return'):
+        return False
+    parts = []
+    for k in ('e', 'rhs', 'fnexpr', 'value'):
+        if isinstance(e.get(k), dict):
+            parts.append(e[k])
+    parts += [a for a in (e.get('args') or []) if isinstance(a, dict)]
+    for x in parts:
+        for n in walk(x):
+            if isinstance(n, dict) and n.get('k') == 'member' and (n.get('record'), n.get('field')) in WAIT_RESULT_FIELDS:
+                return True
+    return False
+
+
 def eintr(ctx):
     """Instances are (entry point, primitive) pairs: how many source sites implement the calls of one primitive in
     one entry point (three copies of a retry loop, or one shared helper with the loop) does not matter.  An instance
@@ -587,6 +607,8 @@ def eintr(ctx):
                     if 'F' in marks and e['ev'] == 'store' and last_member(e['lhs']) == ('iv_state', 'time_valid') \
                             and truth(h15.evaluate(e.get('rhs'), env)) is False:
                         return ['INVAL']
+                    if 'F' in marks and _reads_wait_results(e):
+                        return ['STALE']
                     return ()
                 hits['n'] = 0
                 sim = CSim(prog, root, g, oracle, marker, init).run()
@@ -601,6 +623,10 @@ def eintr(ctx):
                     return False, '%s: no path returns to the loop after EINTR' % root.name
                 if not all(rv is not None and truth(rv) is True for _, rv in rets):
                     return False, '%s: may return 0 after EINTR' % root.name
+                if any('STALE' in m for m, _ in rets):
+                    # an interrupted wait reports nothing: what the result array holds is left over from an earlier wait
+                    return False, ('%s: after the wait failed with EINTR the result fields of the kernel-filled array are read '
+                                   '(readiness left over from an earlier wait is delivered again)' % root.name)
                 if not all('INVAL' in m for m, _ in rets):
                     return False, '%s: time cache not invalidated after the wait' % root.name
                 return True, '%s: returns non-zero, time invalidated' % root.name
